@@ -9,22 +9,28 @@ mod text;
 mod rename;
 mod sem;
 mod census;
+mod robust;
 mod config;
 mod filters;
 mod astjson;
 mod astsynth;
+mod evaluator;
 
 fn main() {
     let args: Vec<String> = std::env::args().skip(1).collect();
-    util::install_quiet_panic_hook();
+    if std::env::var("DLV_LOUD").is_err() {
+        util::install_quiet_panic_hook();
+    }
     let code = match args.first().map(String::as_str) {
         Some("resolve") => resolve::main(&args[1..]),
         Some("frontend") => frontend::main(&args[1..]),
         Some("batch") => batch::main(&args[1..]),
         Some("config") => config::main(&args[1..]),
         Some("filters") => filters::main(&args[1..]),
+        Some("robust") => robust::main(&args[1..]),
         Some("census") => census::main(&args[1..]),
         Some("sem") => sem::main(&args[1..]),
+        Some("evaluator") => evaluator::main(&args[1..]),
         Some("rename") => rename::main(&args[1..]),
         Some("text") => text::main(&args[1..]),
         Some("astcheck") => astjson::main_astcheck(&args[1..]),
